@@ -1,7 +1,7 @@
 // Types whose derive-macro expansion (serialize-derive/src/{serialize,deserialize}.rs) is translated by
 // lib/xlate_serde.py.  One type per case of the macro: named fields, tuple struct, nested-tuple fields (the macro
 // flattens tuple SYNTAX into one call per leaf, addressing it by a path such as `self.b.1.0`), unit struct, generic
-// struct, container fields, a field of another derived type.  (The macros reject enums and unions: they panic with
+// struct, container fields, fields of other derived types.  (The macros reject enums and unions: they panic with
 // "can only be derived for structs", so there is no enum here.)
 // The leaf types must be ones lib/xlate_serde.py can map to a C18 descriptor (TYPE TABLE there).
 #![allow(unused)]
